@@ -69,16 +69,16 @@ LEAN = {
 PROPS = {
     "C01": dict(probes=["v3"], functions=CANON + SERIAL, lean=["pipeline", "canonicalize", "finallabels", "layout", "serialize"], diff=["pipeline"], bounded=[("pipeline", "c01")],
                 canary="C01"),
-    "C02": dict(probes=["v3"], functions=CANON + SERIAL + PARSER, lean=["layout", "parser", "canonicalize"], diff=["pipeline", "parser"], bounded=[("c02", None)]),
-    "C03": dict(probes=["v3"], functions=CANON + SERIAL + PARSER, lean=["layout", "parser", "canonicalize", "finallabels"], diff=["pipeline", "parser"], bounded=[("pipeline", "c03")]),
+    "C02": dict(probes=["v3"], functions=CANON + SERIAL + PARSER, lean=["roundtrip", "layout", "parser", "canonicalize"], diff=["pipeline", "parser"], bounded=[("c02", None)]),
+    "C03": dict(probes=["v3"], functions=CANON + SERIAL + PARSER, lean=["roundtrip", "layout", "parser", "canonicalize", "finallabels"], diff=["pipeline", "parser"], bounded=[("pipeline", "c03")]),
     "C04": dict(probes=["v3"], functions=CANON, lean=["canonicalize"], diff=["pipeline"], bounded=[("pipeline", "c04")]),
-    "C05": dict(functions=SERIAL, lean=["pipeline", "layout", "serialize"], diff=["pipeline"], bounded=[("c05", None)]),
+    "C05": dict(functions=SERIAL + V3000 + V2000, lean=["pipeline", "layout", "serialize", "reader"], diff=["pipeline"], bounded=[("c05", None)]),
     "C06": dict(functions=CANON + SERIAL + V3000 + V2000, lean=["pipeline", "reader", "v3000", "v2000"], diff=["pipeline", "io"], bounded=[("c06", None)]),
     "C07": dict(functions=V3000, lean=["reader", "v30line", "v3000"], diff=["io"], bounded=[("c07", None)]),
     "C08": dict(functions=V2000 + V3000, lean=["v2000", "reader"], diff=["io"], bounded=[("c08", None)]),
     "C09": dict(probes=["v5"], functions=WRITER + V3000, lean=["writer", "v30line"], diff=["io"], bounded=[("c09", None)]),
     "C10": dict(functions=PARSER, lean=["parser"], diff=["parser"], bounded=[("c10", None)]),
-    "C11": dict(probes=["v3"], functions=PARSER + CANON + SERIAL, lean=["parser", "canonicalize", "layout", "finallabels"], diff=["parser", "pipeline"], bounded=[("c11", None)]),
+    "C11": dict(probes=["v3"], functions=PARSER + CANON + SERIAL, lean=["roundtrip", "parser", "canonicalize", "layout", "finallabels"], diff=["parser", "pipeline"], bounded=[("c11", None)]),
     "C12": dict(functions=CANON + SERIAL, lean=["canonicalize", "relabel", "finallabels"], diff=["pipeline"], bounded=[("pipeline", "c12")]),
     "C13": dict(probes=[], functions=CANON, lean=["canonicalize", "partition"], diff=["pipeline"], bounded=[("pipeline", "c13")]),
     "C14": dict(functions=CANON + SERIAL + PARSER + V3000 + V2000 + WRITER, lean=[], diff=[], bounded=[("c14", None)]),
@@ -93,8 +93,10 @@ PROPS = {
 TOP = {
     "C01": dict(level="proof", theorems=["Contracts.Pipeline.C01_main", "Contracts.Pipeline.C01_tucan", "Contracts.FinalLabels.assign_final_labels_order_independent"],
                 note="hypotheses: WF graphs produced by the readers/parser (invariant code determines the identity attributes), SetLawful (any set order), BlissLawful (assumed bliss contract, probe V3)"),
-    "C02": dict(level="other", theorems=[], note="label-level injectivity is being proved in Contracts/RoundTrip.lean; until registered the collision search is bounded"),
-    "C03": dict(level="other", theorems=["Contracts.Parser.graph_from_tree_ok", "Contracts.Layout.serialize_molecule_eq"], note="composition parse(serialize) bounded until Contracts/RoundTrip.lean is registered; ANTLR recognition is assumption V4"),
+    "C02": dict(level="proof", theorems=["Contracts.RoundTrip.C02_pipeline'", "Contracts.RoundTrip.C02_main'", "Contracts.RoundTrip.render_inj"],
+                note="equal strings imply a colour-preserving isomorphism of the input molecules; unconditional on ANTLR (proved through injectivity of the rendering); under BlissLawful/SetLawful only for the pipeline runs to succeed"),
+    "C03": dict(level="other", theorems=["Contracts.RoundTrip.C03_pipeline", "Contracts.RoundTrip.C03_main", "Contracts.RoundTrip.denote_astOf", "Contracts.Parser.graph_from_tree_ok"],
+                note="first clause (parse(tucan(G)) is identity-isomorphic to G, same atom and bond counts) proved under assumption V4 (ANTLR returns the tree of the grammar on the emitted string); the fixed-point clause is the composition with C01_main and stays bounded until Contracts/Final.lean is registered"),
     "C04": dict(level="proof", theorems=["Contracts.Canonicalize.C04_main"], note="under BlissLawful; requires that equal invariant codes imply equal identity attributes (true for reader/parser output)"),
     "C05": dict(level="proof", theorems=["Contracts.Pipeline.C05_pipeline", "Contracts.Layout.Grammar.tucanSpec_in_grammar", "Contracts.Layout.tuples_layout", "Contracts.Layout.blocks_layout", "Contracts.Layout.formula_layout"],
                 note="grammar = tucan.ebnf transcribed into Lean at character level; preconditions (symbols from the element table, positive mass/rad, no self-loop) are what the readers/parser guarantee after fixes D3, D7, D8"),
@@ -108,7 +110,8 @@ TOP = {
                 note="coordinates: reading back gives parseFloat(fmt6 x); 'to six decimals' then rests on the float law V5 (probed); TUCAN->molfile->TUCAN corollary is bounded"),
     "C10": dict(level="other", theorems=["Contracts.Parser.graph_from_tree_ok", "Contracts.Parser.graph_from_tree_error_is_TPE", "Contracts.Parser.int_total"],
                 note="semantic half proved; the recogniser half (ANTLR accepts exactly tucan.g4) cannot be proved here and is bounded (assumption V4)"),
-    "C11": dict(level="other", theorems=["Contracts.Pipeline.C01_tucan", "Contracts.Parser.graph_from_tree_ok"], note="respelling invariance of the denotation bounded until RoundTrip item 5"),
+    "C11": dict(level="other", theorems=["Contracts.RoundTrip.C11_main", "Contracts.RoundTrip.C11_denote", "Contracts.Pipeline.C01_tucan"],
+                note="respelling invariance of the parsed graph proved on syntax trees (V4 for string -> tree); composition with the pipeline (norm) and idempotence stay bounded until Contracts/Final.lean is registered"),
     "C12": dict(level="proof", theorems=["Contracts.Canonicalize.C12_main", "Contracts.FinalLabels.serialize_molecule_frame_eq", "Contracts.FinalLabels.serialize_molecule_repeat"],
                 note="'argument unchanged' is the frame obligation of canonicalize_molecule (no mutated parameter) — back end: extractor"),
     "C13": dict(level="proof", theorems=["Contracts.Canonicalize.C13_main", "Contracts.Canonicalize.C13_classes", "Contracts.Canonicalize.C13_automorphism", "Contracts.Partition.refine_equitable"],
